@@ -7,7 +7,7 @@ from harness.rfhist import Run, RETRY, RETHROW, IGNORE, NEXT, POLICY_KIND, CL
 META = dict(
     level='model_checking',
     level_text='bounded error sequences through the real ResponseFuture with a decision-oracle retry policy: every (decision, consistency) answer, every error kind and every event order is a forked symbolic choice; after each consultation the next message sent / the outcome is compared with the fold of the decisions; z3 decides each path',
-    level_note='task-level schedules; single logical execution (no speculative interleaving except in the idempotence job); transport/timers/executor faked',
+    level_note='task-level schedules; plus, in the *-race jobs, one pre-emption by another thread (a response, a timer, a queued task or a connection failure) at any lock acquire/release reached while the running thread holds no lock; single logical execution (no speculative interleaving except in the idempotence job); transport/timers/executor faked',
     technique='symbolic execution (sx proxies) of the real ResponseFuture retry path over solver-enumerated error/decision sequences + z3 validity per path',
     bounds=dict(quick='3 hosts, <= 2 policy consultations, error kinds {read timeout, write timeout, unavailable, overloaded, connection error(defunct)}, decisions x levels {None, ONE}, histories of <= 5 events',
                 thorough='3 hosts, <= 3 policy consultations, + bootstrapping / server error, histories of <= 7 events'),
@@ -22,18 +22,22 @@ def encoded_functions():
     return [R._set_result, R._handle_retry_decision, R._retry, R._retry_task, R._query, R.send_request, R._start_timer]
 
 
-def h_retries(V, steps=5, calls=2, responses=('rows', 'read_timeout', 'write_timeout', 'unavailable', 'overloaded')):
+def h_retries(V, steps=5, calls=2, responses=('rows', 'read_timeout', 'write_timeout', 'unavailable', 'overloaded'), race=False):
     run = Run(V, n_hosts=3, responses=responses, decisions=(RETRY, RETHROW, IGNORE, NEXT), levels=(None, CL.ONE),
               spec_attempts=0, idempotent=False, allow_defunct=True, max_policy_calls=calls)
     rf = run.rf
+    pre = rfhist.arm_race(V, run) if race else None
     rf.send_request()
     for i in range(steps):
         ncalls = len(run.policy.calls)
         nsent = len(run.sent())
         ndef = len(run.defuncted)
+        used = pre.used if pre else 0
         k = run.step('ev%d' % i)
         if k is None:
             break
+        if pre and pre.used != used:
+            continue            # two events overlapped in this step: only the end-of-history checks apply
         new_calls = run.policy.calls[ncalls:]
         if k == 'respond':
             rk = run.consumed[-1]
@@ -183,5 +187,8 @@ def jobs(tier):
     for r in range(len(resp)):
         js.append(Job('retries-r%d' % r, 'h_retries', dict(steps=7 if th else 5, calls=3 if th else 2, responses=resp),
                       dict(o, pin={'ev0_resp': r, 'ev0': 0})))
+    for first in range(3):
+        js.append(Job('retries-race-f%d' % first, 'h_retries', dict(steps=4 if th else 3, calls=2, responses=('rows', 'read_timeout', 'unavailable'), race=True),
+                      dict(o, pin={'ev0': first})))
     js.append(Job('retries-defunct-first', 'h_retries', dict(steps=6 if th else 4, calls=3 if th else 2, responses=resp), dict(o, pin={'ev0': 2})))
     return js
